@@ -45,6 +45,7 @@ structure Ep where
   hasCookie : Bool := false
   storedInit : Bool := false
   storedCookie : Option Nat := none
+  queue : List Msg := []   -- controlQueue: chunks queued but not yet marshalled by the write loop
   deriving Repr, DecidableEq, Inhabited
 
 /-- Go: setSupportedExtensions -/
@@ -94,38 +95,38 @@ def accepts (e : Ep) (p : Pkt) : Bool :=
 def establish (e : Ep) : Ep := { updateIl e with st := stEstablished }
 
 /-- Go: handleInit -/
-def handleInit (e : Ep) (types : List Nat) (zc : Option Nat) : Ep × List Pkt :=
+def handleInit (e : Ep) (types : List Nat) (zc : Option Nat) : Ep × List Msg :=
   if e.st != stClosed && e.st != stCookieWait && e.st != stCookieEchoed then (e, [])
   else
     let e1 := { updateIl (learnPeer e types zc) with hasCookie := true }
-    (e1, [mkPkt e1 (.initAck (extTypes e1.il) (zcParam e1.zc) e1.id)])
+    (e1, [.initAck (extTypes e1.il) (zcParam e1.zc) e1.id])
 
 /-- Go: handleInitAck -/
-def handleInitAck (e : Ep) (types : List Nat) (zc : Option Nat) (cookie : Nat) : Ep × List Pkt :=
+def handleInitAck (e : Ep) (types : List Nat) (zc : Option Nat) (cookie : Nat) : Ep × List Msg :=
   if e.st != stCookieWait then (e, [])
   else
     let e1 := { updateIl (learnPeer e types zc) with storedInit := false, storedCookie := some cookie, st := stCookieEchoed }
-    (e1, [mkPkt e1 (.cookieEcho cookie)])
+    (e1, [.cookieEcho cookie])
 
 /-- Go: handleCookieEcho -/
-def handleCookieEcho (e : Ep) (cookie : Nat) : Ep × List Pkt :=
+def handleCookieEcho (e : Ep) (cookie : Nat) : Ep × List Msg :=
   if !e.hasCookie then (e, [])
   else if e.st == stEstablished then
-    if cookie != e.id then (e, []) else (e, [mkPkt e .cookieAck])
+    if cookie != e.id then (e, []) else (e, [.cookieAck])
   else if e.st == stClosed || e.st == stCookieWait || e.st == stCookieEchoed then
     if cookie != e.id then (e, [])
     else
       let e1 := establish { e with storedInit := false, storedCookie := none }
-      (e1, [mkPkt e1 .cookieAck])
+      (e1, [.cookieAck])
   else (e, [])
 
 /-- Go: handleCookieAck -/
-def handleCookieAck (e : Ep) : Ep × List Pkt :=
+def handleCookieAck (e : Ep) : Ep × List Msg :=
   if e.st != stCookieEchoed then (e, [])
   else (establish { e with storedCookie := none }, [])
 
-/-- one inbound packet: new endpoint state and the packets it emits in reply -/
-def handle (e : Ep) (p : Pkt) : Ep × List Pkt :=
+/-- one inbound packet: new endpoint state and the chunks it queues in reply -/
+def handle (e : Ep) (p : Pkt) : Ep × List Msg :=
   if !accepts e p then (e, []) else
   match p.msg with
   | .init types zc => handleInit e types zc
@@ -134,18 +135,21 @@ def handle (e : Ep) (p : Pkt) : Ep × List Pkt :=
   | .cookieAck => handleCookieAck e
 
 /-- Go: initClient -/
-def start (e : Ep) : Ep × List Pkt :=
-  let e := { e with storedInit := true }
-  let p := mkPkt e (.init (extTypes e.il) (zcParam e.zc))
-  ({ e with st := stCookieWait }, [p])
+def start (e : Ep) : Ep × List Msg :=
+  ({ e with storedInit := true, st := stCookieWait }, [.init (extTypes e.il) (zcParam e.zc)])
 
 /-- Go: onRetransmissionTimeout for T1-init / T1-cookie -/
-def t1Init (e : Ep) : Ep × List Pkt :=
-  if e.storedInit then (e, [mkPkt e (.init (extTypes e.il) (zcParam e.zc))]) else (e, [])
-def t1Cookie (e : Ep) : Ep × List Pkt :=
+def t1Init (e : Ep) : Ep × List Msg :=
+  if e.storedInit then (e, [.init (extTypes e.il) (zcParam e.zc)]) else (e, [])
+def t1Cookie (e : Ep) : Ep × List Msg :=
   match e.storedCookie with
-  | some c => (e, [mkPkt e (.cookieEcho c)])
+  | some c => (e, [.cookieEcho c])
   | none => (e, [])
+
+/-- Go: gatherOutbound for control chunks — everything queued is marshalled NOW, with the flags the
+endpoint has NOW (not those it had when the chunk was queued) -/
+def flush (e : Ep) (more : List Msg) : Ep × List Pkt :=
+  ({ e with queue := [] }, (e.queue ++ more).map (mkPkt e))
 
 /-- the two-endpoint system with packet histories -/
 structure Sys where
@@ -160,6 +164,8 @@ inductive Op where
   | deliver (x : Bool) (i : Nat)  -- i-th packet ever sent by x goes to the other side
   | t1Init (x : Bool)
   | t1Cookie (x : Bool)
+  | t1Queue (x : Bool) (cookie : Bool)  -- the timer fires and queues the retransmission; the write loop runs later
+  | gather (x : Bool)
   deriving Repr, DecidableEq
 
 def Sys.init (ilA zcA ilB zcB : Bool) : Sys :=
@@ -172,13 +178,17 @@ def Sys.put (s : Sys) (x : Bool) (e : Ep) (out : List Pkt) : Sys :=
 
 def Sys.step (s : Sys) : Op → Sys
   | .start x =>   -- initClient runs once, on a fresh association
-    if (s.ep x).st == stClosed then (let (e, o) := start (s.ep x); s.put x e o) else s
+    if (s.ep x).st == stClosed then (let (e, m) := start (s.ep x); let (e, o) := flush e m; s.put x e o) else s
   | .deliver x i =>
     match (s.hist x)[i]? with
     | none => s
-    | some p => let (e, o) := handle (s.ep (!x)) p; s.put (!x) e o
-  | .t1Init x => let (e, o) := t1Init (s.ep x); s.put x e o
-  | .t1Cookie x => let (e, o) := t1Cookie (s.ep x); s.put x e o
+    | some p => let (e, m) := handle (s.ep (!x)) p; let (e, o) := flush e m; s.put (!x) e o
+  | .t1Init x => let (e, m) := t1Init (s.ep x); let (e, o) := flush e m; s.put x e o
+  | .t1Cookie x => let (e, m) := t1Cookie (s.ep x); let (e, o) := flush e m; s.put x e o
+  | .t1Queue x cookie =>
+    let (e, m) := if cookie then t1Cookie (s.ep x) else t1Init (s.ep x)
+    s.put x { e with queue := e.queue ++ m } []
+  | .gather x => let (e, o) := flush (s.ep x) []; s.put x e o
 
 def Sys.run (s : Sys) (ops : List Op) : Sys := ops.foldl Sys.step s
 
